@@ -287,3 +287,37 @@ Fixpoint split_lines (cur : bytes) (b : bytes) : list bytes :=
   | c :: r => if N.eqb c nl then rev cur :: split_lines [] r else split_lines (c :: cur) r
   end.
 Definition decode_text (b : bytes) : res (list bytes) := Ok (split_lines [] b).
+
+(* ---------- the real file names (format regenerated into Gen/SaveOrder.v: part_prefix, part_width) ---------- *)
+
+(* f'{i:0Wd}' for i < 10^W: exactly W decimal digits, most significant first *)
+Fixpoint fixed_digits (w : nat) (i : N) : list N :=
+  match w with
+  | 0 => []
+  | S w' => (i / 10 ^ N.of_nat w')%N :: fixed_digits w' (i mod 10 ^ N.of_nat w')%N
+  end.
+
+Definition digit_char (d : N) : N := (48 + d)%N.
+
+Definition name_string (n : name) : list N :=
+  match n with
+  | NPart i => part_prefix ++ map digit_char (fixed_digits part_width (N.of_nat i))
+  | NMarker => [95; 83; 85; 67; 67; 69; 83; 83]%N                (* _SUCCESS *)
+  | NOther k => [111; 108; 100; 45; digit_char (N.of_nat k)]%N   (* old-k *)
+  end.
+
+(* names the format renders faithfully: fewer than 10^W partitions, one-digit foreign files *)
+Definition valid_name (n : name) : Prop :=
+  match n with
+  | NPart i => (N.of_nat i < 10 ^ N.of_nat part_width)%N
+  | NMarker => True
+  | NOther k => k < 10
+  end.
+
+(* Python's comparison of str / sorted() on names: lexicographic by code point *)
+Fixpoint lex_leb (a b : list N) : bool :=
+  match a, b with
+  | [], _ => true
+  | _ :: _, [] => false
+  | x :: a', y :: b' => if N.ltb x y then true else if N.eqb x y then lex_leb a' b' else false
+  end.
